@@ -291,9 +291,16 @@ def run(tier, seed):
 
 
 def replay(path):
+    _seal(path)
     n_ev, rej, st = vc.validate_trace(SPEC, "AliasingTrace", TCFG, path, parallel=1)
     _tidy()
+    bad = 0
     for rj in rej:
+        k = vc.match_known("C03", _sig(rj))
+        if k:
+            vc.log("KNOWN-FINDING: property=C03 %s [event %d]" % (k.get("what", k.get("id", "")), rj.index))
+            continue
+        bad += 1
         vc.log("VIOLATION property=C03 replay=%s" % path)
         vc.log("  %s at event #%d: %s" % (rj.reason, rj.index, json.dumps(rj.event)[:800]))
-    return 1 if rej else 0
+    return 1 if bad else 0
